@@ -14,6 +14,9 @@ mod tests;
 
 pub use actors::DiscoveryMetrics;
 pub use api::{Discovery, DiscoveryError};
+/// Verification hook: re-export of the module-private discovery backoff.
+#[cfg(p2panda_p2panda_verif)]
+pub use backoff::{Backoff, Config as BackoffConfig};
 pub use builder::Builder;
 pub use config::DiscoveryConfig;
 pub use events::{DiscoveryEvent, SessionRole};
